@@ -144,6 +144,25 @@ func sequential(res *vk.Result, s idxsets.BlobSet, k0 int, deadline time.Time) {
 			res.Violate(sc, "C05|reindex|"+s.Name+"|rows-differ|"+idxsets.RowFamily(got, want), "Reindex from blob storage: "+idxsets.DiffDump(got, want), map[string]any{"engine": "reindex", "set": s.Name})
 		}
 	}
+	// the same on a LIVE index that already indexed the set (its in-memory dependency maps are
+	// populated when Reindex wipes and rebuilds the rows)
+	if vk.Mine(k0 + 1) {
+		in := idxsets.NewInst()
+		for _, b := range s.Canon {
+			if err := in.Feed(b); err != nil {
+				res.EngineError("C05 live reindex of %s: feeding %s: %v", s.Name, b.Name, err)
+			}
+			in.Ix.VerifAwaitReindex()
+		}
+		err := in.Ix.Reindex()
+		in.Ix.VerifAwaitReindex()
+		sc.Executions++
+		if len(s.Absent) == 0 && err != nil {
+			res.Violate(sc, "C05|reindex-live|"+s.Name+"|error", fmt.Sprintf("Reindex on a live index holding the complete blob set failed: %v", err), map[string]any{"engine": "reindex-live", "set": s.Name})
+		} else if got := in.Dump(); got != want {
+			res.Violate(sc, "C05|reindex-live|"+s.Name+"|rows-differ|"+idxsets.RowFamily(got, want), "Reindex on the live index that had received the set in dependency order: "+idxsets.DiffDump(got, want), map[string]any{"engine": "reindex-live", "set": s.Name})
+		}
+	}
 	// pending, not dropped
 	if len(s.Absent) > 0 && vk.Mine(k0) {
 		for _, dep := range s.Absent {
